@@ -1,0 +1,25 @@
+//go:build verif
+// +build verif
+
+package redis
+
+import (
+	"github.com/samaritan-proxy/samaritan/pb/config/protocol"
+	predis "github.com/samaritan-proxy/samaritan/pb/config/protocol/redis"
+	"github.com/samaritan-proxy/samaritan/pb/config/service"
+)
+
+// SetReadStrategy replaces the service configuration by a copy with another read strategy, the
+// way a configuration update from discovery does (config.Update), without refreshing the slots.
+func (e *VerifEnv) SetReadStrategy(strategy int32) {
+	old := e.p.cfg.Raw()
+	opt := &protocol.RedisOption{ReadStrategy: predis.ReadStrategy(strategy)}
+	if o := old.GetRedisOption(); o != nil {
+		opt.Compression = o.Compression
+	}
+	e.p.cfg.Update(&service.Config{
+		ConnectTimeout:  old.ConnectTimeout,
+		Protocol:        old.Protocol,
+		ProtocolOptions: &service.Config_RedisOption{RedisOption: opt},
+	})
+}
